@@ -829,7 +829,7 @@ class Interp:
                     return BoundMethod(None, m2.functions[nm])
                 if nm in getattr(m2, "dropped_functions", {}):
                     return BoundMethod(None, m2.dropped_functions[nm])
-        if e.id in ("struct", "time", "asyncio", "logging", "re", "math", "threading", "socket", "enum", "operator", "contextlib", "dataclasses", "typing", "functools", "itertools", "collections"):
+        if e.id in ("struct", "time", "asyncio", "logging", "re", "math", "threading", "socket", "enum", "operator", "contextlib", "dataclasses", "typing", "functools", "itertools", "collections", "importlib", "datetime", "os", "sys", "ast"):
             return ModuleRef(e.id)
         if mod is not None and e.id in mod.imports and mod.imports[e.id][0] == 0:
             from .pystd import STD_MODULES
@@ -1779,6 +1779,12 @@ class Builtin:
             if args[1].concrete() is None:
                 return sym_match(_re.compile(args[0], fl), n[3:], args[1])
             args = [args[0], args[1].concrete()] + list(args[2:])
+        if n == "re.sub" and len(args) >= 3 and not isinstance(args[1], (str, bytes)) and isinstance(args[0], (str, bytes)) and isinstance(args[2], (str, bytes)):
+            import re as _re
+            repl_ = args[1]
+            fl_ = kwargs.get("flags", args[4] if len(args) > 4 else 0)
+            cnt_ = kwargs.get("count", args[3] if len(args) > 3 else 0)
+            return _re.sub(args[0], lambda m_: interp.apply(repl_, [m_], {}, node), args[2], count=cnt_, flags=fl_)   # a callable replacement
         if n in ("re.compile", "re.search", "re.match", "re.fullmatch", "re.findall", "re.sub", "re.split", "re.escape"):
             if any(not isinstance(a, (str, bytes, int)) for a in args) or any(not isinstance(a, (str, bytes, int)) for a in kwargs.values()):
                 raise Undecided(f"{n} on non-constant arguments")
@@ -1825,7 +1831,7 @@ class Builtin:
             return SymBytes.pack(fmt, list(vals))
         if n == "struct.calcsize":
             return _struct.calcsize(args[0])
-        if n.startswith("time.") or n.startswith("threading.") or n.startswith("socket."):
+        if n.startswith("time.") or n.startswith("threading.") or n.startswith("socket.") or n.startswith("datetime.") or n.startswith("os.") or n.startswith("sys."):
             return Opaque(n)
         from .pystd import std_call
         r = std_call(interp, n, args, kwargs, node)
